@@ -161,6 +161,17 @@ Definition icycles_ref (g : graph) : list nat :=
 Definition ipaths_ref (g : graph) : list nat :=
   map (fun L => if L =? 0 then gn g else length (induced_path_seqs g L) / 2) (seq 0 (gn g)).
 
+(* the length-bounded variants NumberOfInducedCycles(g, k) / NumberOfInducedPaths(g, k): the
+   effective bound is [top] when k is negative or above [top]; entries above the bound are 0 *)
+Definition eff_bound (k : Z) (top : nat) : nat :=
+  if ((k <? 0) || (Z.of_nat top <? k))%Z then top else Z.to_nat k.
+Definition bounded_counts (full : list nat) (b : nat) : list nat :=
+  map (fun Lc => if fst Lc <=? b then snd Lc else 0) (combine (seq 0 (length full)) full).
+Definition icycles_bounded_ref (g : graph) (k : Z) : list nat :=
+  bounded_counts (icycles_ref g) (eff_bound k (gn g)).
+Definition ipaths_bounded_ref (g : graph) (k : Z) : list nat :=
+  bounded_counts (ipaths_ref g) (eff_bound k (gn g - 1)).
+
 (* Girth: Some L = least number of vertices of a cycle, None = acyclic (-1) *)
 Definition girth_ref (g : graph) : option nat :=
   find (fun L => match cycle_seqs g L with [] => false | _ => true end) (seq 3 (gn g - 2)).
